@@ -11,6 +11,55 @@ ASSUMPTIONS = ["the sectioning loop of the reader is modelled line by line (Mode
 NAMES = {0: "undefined", 1: "soma", 2: "axon", 3: "basal", 4: "apical", 5: "custom"}
 
 
+def forced_max_branch_len(path, viol):
+    """dense tracings in which every traced segment is far below max_branch_len, so the file is splittable:
+    the total length must not depend on max_branch_len.  _split_branch_equally cuts by NUMBER of points; when the
+    first piece of a stem of a single-point soma is [soma, first neurite point] (traced length 0 -> 1 um) or the
+    first piece of the root section is a single point (-> 2 r), the total changes: known finding F63."""
+    import warnings
+    import numpy as np
+    import jaxley as jx
+    import swcref
+    files = {
+        "stem of a single-point soma, 5 points 10 um apart, max_branch_len=25":
+            ([(1, 1, 0.0, 0.0, 0.0, 2.0, -1), (2, 3, 2.0, 0.0, 0.0, 1.0, 1), (3, 3, 12.0, 0.0, 0.0, 1.0, 2), (4, 3, 22.0, 0.0, 0.0, 1.0, 3),
+              (5, 3, 32.0, 0.0, 0.0, 1.0, 4), (6, 3, 42.0, 0.0, 0.0, 1.0, 5)], 25.0),
+        "3-point soma (8 um steps) with two dendrites, max_branch_len=10":
+            ([(1, 1, 0.0, 0.0, 0.0, 3.0, -1), (2, 1, 8.0, 0.0, 0.0, 3.0, 1), (3, 1, 16.0, 0.0, 0.0, 3.0, 2), (4, 3, 19.0, 0.0, 0.0, 0.5, 3),
+              (5, 3, 24.0, 0.0, 0.0, 0.5, 4), (6, 4, 16.0, 3.0, 0.0, 0.5, 3), (7, 4, 16.0, 8.0, 0.0, 0.5, 6)], 10.0),
+        "stem with 9 points 5 um apart, max_branch_len=25 (first piece has three points: splittable without a degenerate piece)":
+            ([(1, 1, 0.0, 0.0, 0.0, 2.0, -1)] + [(k + 2, 3, 2.0 + 5.0 * k, 0.0, 0.0, 1.0, k + 1) for k in range(9)], 25.0),
+    }
+    n = 0
+    for name, (rows, mbl) in files.items():
+        swcref.write_swc([list(r) for r in rows], path)
+        with warnings.catch_warnings():
+            warnings.simplefilter("ignore")
+            try:
+                c0 = jx.read_swc(path, ncomp=1)
+                c1 = jx.read_swc(path, ncomp=1, max_branch_len=mbl)
+            except Exception as ex:
+                viol.append({"kind": "read_swc with max_branch_len raised on a dense tracing", "file": name, "error": repr(ex)[:300], "finding_class": None})
+                continue
+        n += 1
+        t0, t1 = float(c0.nodes["length"].sum()), float(c1.nodes["length"].sum())
+        if abs(t0 - t1) > 1e-9:
+            soma_xyz = np.asarray(rows[0][2:5])
+            single_point_soma = rows[1][1] != 1
+            degenerate = False
+            for b in range(len(c1.xyzr)):
+                pts = c1.xyzr[b][:, :3]
+                if len(pts) == 1 and not (single_point_soma and b == 0):
+                    degenerate = True                # a one-point piece that is not the single-point soma
+                if single_point_soma and len(pts) == 2 and np.allclose(pts[0], soma_xyz):
+                    degenerate = True                # [soma, first neurite point]
+            viol.append({"kind": "max_branch_len splitting changed the total cable length of a dense tracing", "file": name, "swc_rows": [list(r) for r in rows],
+                         "max_branch_len": mbl, "total_without": t0, "total_with": t1,
+                         "branch_lengths_with": [float(x) for x in c1.nodes["length"]],
+                         "finding_class": "max_branch_len_degenerate_first_piece" if degenerate else None})
+    return n
+
+
 def run(ctx):
     import os
     import warnings
@@ -150,6 +199,9 @@ def run(ctx):
                 viol.append(dict(case, kind="the proved checker (Model/Swc.v) rejects the reader's sectioning / connectivity", checker_output=o))
     except Exception as ex:
         viol.append({"kind": "checker could not be evaluated", "error": repr(ex)[:800], "no_failing_input_found": True})
+    evals += forced_max_branch_len(path, viol)
+    import regress
+    evals += regress.run("C16", viol)
     for v in viol:
         v.setdefault("finding_class", None)
     seen, out = set(), []
